@@ -559,7 +559,22 @@ Definition spec_C09_levels (st : pstate) (b : bufrec) : list (string * form) :=
         ++ map (fun ev => ("access_is_change", FOr (map (fun c => FEq c (ev_time ev)) changes))) evs
         ++ map (fun '(e1, e2) => ("accesses_distinct", FNot (FEq (ev_time e1) (ev_time e2)))) (pairs_of evs)
       else []).
-Definition spec_C09_P (st : pstate) (b : bufrec) : list (string * form) := spec_C09_basic b ++ spec_C09_levels st b.
+(* a concurrent buffer accessed by mandatory tasks only: same level clause (several accesses may share an instant), every
+   access instant is a reported change and conversely, the reported change times are in non-decreasing order *)
+Definition buf_proved_conc (st : pstate) (b : bufrec) : bool :=
+  buf_regular b && b_conc b && negb (buf_has_optional st b).
+Definition spec_C09_conc (st : pstate) (b : bufrec) : list (string * form) :=
+  let levels := buf_levels b in
+  let changes := buf_changes b in
+  let evs := buf_events b in
+  if buf_proved_conc st b then
+    map (fun '(l, c) => ("level_after_change", level_clause st b l c)) (combine (tl levels) changes)
+    ++ map (fun ev => ("access_is_change", FOr (map (fun c => FEq c (ev_time ev)) changes))) evs
+    ++ map (fun '(c1, c2) => ("change_times_sorted", FLe c1 c2)) (consecutive changes)
+    ++ map (fun c => ("change_is_access_concurrent", FOr (map (fun ev => FEq c (ev_time ev)) evs))) changes
+  else [].
+Definition spec_C09_P (st : pstate) (b : bufrec) : list (string * form) :=
+  spec_C09_basic b ++ spec_C09_levels st b ++ spec_C09_conc st b.
 
 Definition spec_C09_S (st : pstate) (b : bufrec) : list (string * form) :=
   let levels := buf_levels b in
@@ -567,7 +582,7 @@ Definition spec_C09_S (st : pstate) (b : bufrec) : list (string * form) :=
   let evs := buf_events b in
   let has_opt := existsb (fun ev => match find_task st (ev_task ev) with Some ti => ti_opt ti | None => false end) evs in
   let suffix := (if has_opt then "_optional" else "")%string in
-  if buf_regular b && negb (buf_proved_levels st b) then
+  if buf_regular b && negb (buf_proved_levels st b) && negb (buf_proved_conc st b) then
     map (fun '(l, c) => (("level_after_change" ++ suffix)%string, level_clause st b l c)) (combine (tl levels) changes)
     ++ map (fun ev => ("access_is_change", FImp (task_act st (ev_task ev)) (FOr (map (fun c => FEq c (ev_time ev)) changes)))) evs
     ++ (if b_conc b then map (fun '(c1, c2) => ("change_times_sorted", FLe c1 c2)) (consecutive changes)
